@@ -12,9 +12,11 @@ NAMINGS = (("d", "a", "c", "b", "e"), ("zz", "B", "a1", "_x", "Q"))
 
 def slots_of(n, edges, i, names):
     """Arguments of node i: list of (slot, raw value) where raw values are result names / lists of them."""
-    direct = [names[p] for (c, p, k) in edges if c == i and k == "d"]
-    lst = [names[p] for (c, p, k) in edges if c == i and k == "l"]
-    nst = [names[p] for (c, p, k) in edges if c == i and k == "n"]
+    # a kind is a string over d/l/n: "d" one direct slot, "dd" two direct slots naming the same result, "dl" one direct slot and one list
+    # entry, "ll" twice in the list, ...  (multi-references of one producer by one consumer)
+    direct = [names[p] for (c, p, k) in edges if c == i for ch in k if ch == "d"]
+    lst = [names[p] for (c, p, k) in edges if c == i for ch in k if ch == "l"]
+    nst = [names[p] for (c, p, k) in edges if c == i for ch in k if ch == "n"]
     out = [("D%d" % j, x) for j, x in enumerate(direct)]
     if lst:
         out.append(("L", lst))
